@@ -22,10 +22,28 @@ func checkSuffix(text []byte) (msg string, bad bool) {
 		}
 	}()
 	n := len(text)
-	t := cloneBytes(text)
-	if t == nil {
-		t = []byte{}
+	// The text is handed over as the front part of a larger buffer in three
+	// of four variants: behind its length stand the text once more (a stream
+	// that was read ahead, a periodic buffer), its last byte repeated, or
+	// zeros. Nothing behind len(t) belongs to the text.
+	variant := func(k int) (t, whole []byte) {
+		switch k % 4 {
+		case 1:
+			whole = append(append(cloneBytes(text), text...), 0, 0, 0, 0, 0, 0, 0, 0)
+		case 2:
+			whole = cloneBytes(text)
+			for i := 0; i < 16 && n > 0; i++ {
+				whole = append(whole, text[n-1])
+			}
+		case 3:
+			whole = append(cloneBytes(text), make([]byte, 24)...)
+		default:
+			whole = append(make([]byte, 0, n), text...)
+		}
+		return whole[:n:len(whole)], whole
 	}
+	t, whole := variant(n)
+	tail := cloneBytes(whole[n:])
 	// The arrays live in one allocation with guard words between them, the
 	// way a caller with an arena lays them out; their capacity reaches into
 	// what follows them, nothing behind their length belongs to the package.
@@ -53,8 +71,8 @@ func checkSuffix(text []byte) (msg string, bad bool) {
 	if !guardsOK() {
 		return "Sort wrote outside of the suffix array it was given", true
 	}
-	if !bytesEqual(t, text) {
-		return "Sort modified the text", true
+	if !bytesEqual(t, text) || !bytesEqual(whole[n:], tail) {
+		return "Sort modified the text (or the bytes behind it in the caller's buffer)", true
 	}
 	if err := checkSuffixArray(text, sa); err != nil {
 		return "Sort: " + err.Error(), true
@@ -110,6 +128,8 @@ func checkSuffix(text []byte) (msg string, bad bool) {
 		if combo >= 4 && n == 0 {
 			continue
 		}
+		t, whole := variant(n + combo + 1)
+		tail := cloneBytes(whole[n:])
 		supplied := len(saArg) == n
 		suppliedInv := supplied && len(invArg) == n
 		lcp := arena[3*gw+2*n : 3*gw+3*n]
@@ -117,8 +137,8 @@ func checkSuffix(text []byte) (msg string, bad bool) {
 			lcp[i] = int32(1000 + i)
 		}
 		suffix.LCP(t, saArg, invArg, lcp)
-		if !bytesEqual(t, text) {
-			return "LCP modified the text", true
+		if !bytesEqual(t, text) || !bytesEqual(whole[n:], tail) {
+			return "LCP modified the text (or the bytes behind it in the caller's buffer)", true
 		}
 		if !guardsOK() {
 			return "LCP wrote outside of the table it was given", true
